@@ -154,9 +154,20 @@ def cli_runs(name, decls, arrangements, repeats, workdir):
         d = os.path.join(workdir, "%s_%d" % (name, i))
         os.makedirs(d, exist_ok=True)
         files = build_files(decls, a)
-        for fn, t, _ in files:
-            with open(os.path.join(d, fn), "w") as fh:
+        # some files of the set directory are symbolic links to regular files kept next to it: a file of a compilation set
+        # is a file however it got into the directory
+        store = d + "_store"
+        os.makedirs(store, exist_ok=True)
+        for fi, (fn, t, _) in enumerate(files):
+            if os.path.lexists(os.path.join(d, fn)):
+                os.unlink(os.path.join(d, fn))
+            if (fi + i) % 2 == 0:
+                with open(os.path.join(d, fn), "w") as fh:        # every other file is a regular file ...
+                    fh.write(t)
+                continue
+            with open(os.path.join(store, fn), "w") as fh:          # ... the others are links
                 fh.write(t)
+            os.symlink(os.path.join("..", os.path.basename(store), fn), os.path.join(d, fn))
         jobs.append((a, d, [fn for fn, _, _ in files]))
 
     def one(j):
@@ -174,4 +185,5 @@ def cli_runs(name, decls, arrangements, repeats, workdir):
         res = list(ex.map(one, jobs))
     for _, d, _ in jobs:
         shutil.rmtree(d, ignore_errors=True)
+        shutil.rmtree(d + "_store", ignore_errors=True)
     return res
